@@ -23,7 +23,7 @@ StoreMix == (32768 :> Rec("PUB", 11, 1)) @@ (32769 :> Rec("PUB", 12, 2))
             @@ (49152 :> Rec("REL", 21, 7)) @@ (49153 :> Rec("PUB", 22, 4)) @@ (49154 :> Rec("PUB", 23, 5)) @@ (49155 :> Rec("PUB", 24, 6))
 \* both sequences straddle the 14-bit wrap of the identifiers
 StoreWrap == (32768 + 16382 :> Rec("PUB", 11, 1)) @@ (32768 + 16383 :> Rec("PUB", 12, 2)) @@ (32768 :> Rec("PUB", 13, 3)) @@ (32769 :> Rec("PUB", 14, 4))
-             @@ (49152 + 16383 :> Rec("REL", 21, 8)) @@ (49152 :> Rec("PUB", 22, 6)) @@ (49153 :> Rec("PUB", 23, 7))
+             @@ (49152 + 16383 :> Rec("REL", 21, 8)) @@ (49152 :> Rec("REL", 22, 9)) @@ (49153 :> Rec("PUB", 23, 7))
 \* only PUBREL records pending
 StoreRels == (49152 + 5 :> Rec("REL", 21, 3)) @@ (49152 + 6 :> Rec("REL", 22, 4))
 NoIn == <<>>
